@@ -585,7 +585,11 @@ def interleave_session(ctx):
     if not keep:
         return
     budget = float(os.environ.get("VERIF_INTERLEAVE_S", "0") or 0) or (60.0 if ctx.thorough else 20.0 if getattr(ctx, "boost", False) else 5.0)
-    interleave.session(ctx, keep, PROJ, budget, 40 if ctx.thorough else 14)
+    deep = ctx.thorough or getattr(ctx, "boost", False)
+    interleave.session(ctx, keep, PROJ, budget * (0.6 if deep else 1.0), 40 if ctx.thorough else 14)
+    if deep and not ctx.violations:
+        # switch points inside a line as well (two stores written in one statement)
+        interleave.session(ctx, keep, PROJ, budget * 0.4, 60 if ctx.thorough else 24, event="INSTRUCTION")
 
 
 INTERPRETER_MODES = [["-O"], ["-OO"], ["-bb"], ["byteorder=big"], ["-X", "dev", "-W", "default"], ["-I"], ["-X", "utf8=0"]]
